@@ -155,6 +155,9 @@ def install_call_stubs(ex, newton=True, faulting=False):
         # contract of update_timestep (proved by check_update_timestep): (corr * solver_dict['timestep'], corr < 0.81)
         selfref = args[0]
         h = st_.obj(st_.obj(selfref).fields["solver_dict"]).items["timestep"]
+        if "first_update_memory" not in st_.ghost:
+            # ghost: which of the controller's memory keys the first update_timestep of this __call__ finds in solver_dict
+            st_.ghost["first_update_memory"] = tuple(k for k in STALE_MEMORY if k in st_.obj(st_.obj(selfref).fields["solver_dict"]).items)
         corr = z3.Real(fresh_name("corr"))
         st_.assume(corr >= z3.Q(2146, 10000))
         st_.assume(corr < z3.Q(2571, 1000))
@@ -172,9 +175,18 @@ def install_call_stubs(ex, newton=True, faulting=False):
     ex.call_hooks["RungeKuttaIntegrator.get_error_estimate"] = lambda ex_, st_, ctx, args, kwargs: z3.Real(fresh_name("err"))
 
 
-def rk_self(st, implicit, adaptive, retries=3):
-    sd = st.new_obj("dict", "dict", items=dict(redo_count=0, num_step_retries=retries))
-    keep = frozenset(["redo_count", "num_step_retries", "safety_factor", "order", "atol", "rtol"])
+STALE_MEMORY = ("system_scaling", "epsilon_last", "epsilon_last_last")
+
+
+def rk_self(st, implicit, adaptive, retries=3, keep=None):
+    """An integrator object as an earlier call may have left it: the controller's per-step memory of that call is still in solver_dict.
+    `keep` is the set solver_dict_keep_keys the real constructor builds (props/ctor.check_rk_init); the retry budget is shortened to
+    `retries` by keeping the key num_step_retries alive (the real default, 64, is read by .get() once the key has been filtered out)."""
+    items = dict(redo_count=0, num_step_retries=retries)
+    for k in STALE_MEMORY:
+        items[k] = Opaque("stale_" + k)
+    sd = st.new_obj("dict", "dict", items=items)
+    keep = frozenset(keep if keep is not None else ["redo_count", "safety_factor", "order", "atol", "rtol"]) | frozenset(["num_step_retries"])
     fields = dict(solver_dict=sd, solver_dict_keep_keys=keep, final_rhs=None, _explicit=not implicit, _fsal=False, _adaptive=adaptive, _adaptivity_enabled=False,
                   stage_values=Opaque("sv"), atol=Opaque("atol"), rtol=Opaque("rtol"), dTime=None, dState=None, _requires_high_precision=False,
                   initial_state=None, initial_time=None, initial_rhs=None)
@@ -186,12 +198,12 @@ def zabs(x):
     return z3.If(x >= 0, x, -x)
 
 
-def check_rk_call(reg, src, prop, implicit, adaptive):
+def check_rk_call(reg, src, prop, implicit, adaptive, keep=None):
     ex = Executor(src, reg, prop=prop)
     install_call_stubs(ex)
     fi = src.func(FT, "RungeKuttaIntegrator.__call__")
     st = State()
-    selfobj = rk_self(st, implicit, adaptive)
+    selfobj = rk_self(st, implicit, adaptive, keep=keep)
     label = "implicit" if implicit and not adaptive else ("implicit-adaptive" if implicit else ("adaptive" if adaptive else "explicit-fixed"))
     ctx = Ctx(fi, None, fi.cls, tag="RungeKuttaIntegrator.__call__[%s]" % label)
     h = z3.Real("h0")
@@ -221,6 +233,11 @@ def check_rk_call(reg, src, prop, implicit, adaptive):
             ex.prove(s, ctx, z3.And(dT == h, new_dt == h), "post", "fixed-step-exact#path%d" % k)
         if adaptive or implicit:
             ex.prove(s, ctx, z3.Not(s.ghost["last_redo"]) if "last_redo" in s.ghost else False, "post", "returned-step-was-accepted-by-controller#path%d" % k)
+            # the tolerance scale of this step is built from this step: nothing of an earlier call's controller memory reaches the first
+            # error test of the call (keys kept across calls come from the real constructor)
+            reg.ground("%s/%s/first-error-test-uses-no-memory-of-earlier-calls#path%d" % (prop, ctx.tag, k), "post", "__call__",
+                       s.ghost.get("first_update_memory") == (), backend="symbolic-exec",
+                       detail="controller memory present at the first update_timestep of the call: %r (kept keys: %s)" % (s.ghost.get("first_update_memory"), sorted(keep) if keep is not None else "harness default"))
         if implicit:
             ex.prove(s, ctx, s.ghost.get("last_newton", False), "post", "unconverged-never-returned#path%d" % k)
         o = s.obj(selfobj).fields
